@@ -71,6 +71,13 @@ def b_len(eng, args, kw, n, st):
         return lift(0)
     if isinstance(v, tuple) and v[0] == "range":
         return V(TInt, z3.If(v[2] - v[1] < 0, z3.IntVal(0), v[2] - v[1]))
+    if isinstance(v, V) and v.ty is TNone and eng.spec_mode:
+        return V(TInt, z3.Int("len!of-None"))       # only under a guard that excludes None: unconstrained
+    if isinstance(v, V) and isinstance(v.ty, TOpt):
+        # len(optional): None has no len() (TypeError) - an obligation in code, the guarded value in a clause
+        if not eng.spec_mode:
+            eng.require(st, "safe.none", n, v.ty.sort().is_some(v.t), "TypeError")
+        v = V(v.ty.t, v.ty.sort().v(v.t))
     if isinstance(v, V):
         if v.ty is TStr or isinstance(v.ty, TSeq):
             return V(TInt, SQ.length(v.t))
@@ -482,8 +489,27 @@ def method(eng, recv, meth, args, kw, n, st):
             if meth == "copy":
                 return recv
         if isinstance(ty, TSet):
+            def _as_set(o):
+                if isinstance(o, V) and isinstance(o.ty, TSeq):
+                    o = b_set(eng, [o], {}, n, st)
+                if isinstance(o, tuple) and o and o[0] == "emptyset":
+                    return z3.EmptySet(ty.elem.sort())
+                if isinstance(o, V) and isinstance(o.ty, TSet) and o.ty.elem == ty.elem:
+                    return o.t
+                raise OutOfSubset(n, f"set.{meth}({o!r})")
+
             if meth == "union":
-                return V(ty, z3.SetUnion(recv.t, args[0].t))
+                return V(ty, z3.SetUnion(recv.t, _as_set(args[0])))
+            if meth == "difference":
+                return V(ty, z3.SetDifference(recv.t, _as_set(args[0])))
+            if meth == "intersection":
+                return V(ty, z3.SetIntersect(recv.t, _as_set(args[0])))
+            if meth == "issubset":
+                return V(TBool, z3.IsSubset(recv.t, _as_set(args[0])))
+            if meth == "issuperset":
+                return V(TBool, z3.IsSubset(_as_set(args[0]), recv.t))
+            if meth == "isdisjoint":
+                return V(TBool, z3.SetIntersect(recv.t, _as_set(args[0])) == z3.EmptySet(ty.elem.sort()))
             if meth == "copy":
                 return recv
     raise OutOfSubset(n, f"method {meth} on {recv!r}")
